@@ -725,7 +725,7 @@ func C04(tier rt.Tier) int {
 			{name: "sync-merge-older-origin", paths: pfPaths[:3], vals: []string{"x"}, rounds: 2, txnOps: 2, maxTxns: 1, depth: 7, syncOps: true, syncOlder: true, base: 4},
 		}
 	} else {
-		per = 8 * time.Minute
+		per = 4 * time.Minute
 		runs = []roundCfg{
 			{name: "prefixfree-3rounds", paths: pfPaths[:5], vals: []string{"x", "y"}, rounds: 3, txnOps: 2, maxTxns: 2, depth: 12},
 			{name: "nested-3rounds", paths: nestedRound, vals: []string{"x"}, rounds: 3, txnOps: 2, maxTxns: 2, depth: 12},
@@ -763,7 +763,7 @@ func C05(tier rt.Tier) int {
 	var runs []roundCfg
 	per := 30 * time.Second
 	if tier == rt.Thorough {
-		per = 5 * time.Minute
+		per = 150 * time.Second
 	}
 	if tier == rt.Quick {
 		runs = []roundCfg{
